@@ -67,7 +67,31 @@ pub fn valid_message(rng: &mut Rng, v6: bool) -> Vec<u8> {
 
 /// Structure-aware hostile byte string of at most 1500 bytes.
 pub fn hostile_bytes(rng: &mut Rng, v6: bool) -> Vec<u8> {
-    let mut b = match rng.below(12) {
+    let mut b = match rng.below(14) {
+        12 => {
+            // error message whose description is long valid UTF-8 with multi-byte characters at
+            // every alignment (50..400 bytes)
+            let lead = rng.range(0, 300) as usize;
+            let mut text = "x".repeat(lead);
+            let ch = *rng.pick(&["é", "€", "😀", "ß", "中"]);
+            for _ in 0..rng.range(1, 60) {
+                text.push_str(ch);
+            }
+            krpc::error(&rng.bytes_in(0, 8), 201 + rng.below(4) as i64, &text).encode()
+        }
+        13 => {
+            // valid query with very long (but in-bounds) strings in known and unknown fields
+            let id = rng.id20();
+            let mut a = Val::dict().with("id", Val::bytes(&id)).with("info_hash", Val::Bytes(rng.bytes(20))).with("port", Val::Int(1)).with("token", Val::Bytes(rng.bytes_in(0, 1300)));
+            if rng.chance(1, 2) {
+                a.set("name", Val::Bytes(rng.bytes_in(0, 600)));
+            }
+            let mut m = krpc::query(&rng.bytes_in(0, 64), "announce_peer", a).to_val();
+            if rng.chance(1, 2) {
+                m.set("v", Val::Bytes(rng.bytes_in(0, 300)));
+            }
+            m.encode()
+        }
         0 => {
             // length prefix of every magnitude up to and beyond 2^64 on a top-level key
             let digits = rng.range(1, 24) as usize;
